@@ -292,7 +292,15 @@ func H_C16_process_vs_rotate() {
 			out, _ = o.Payload.(*hPayload)
 		}
 	})
-	verifGo(func() { ef.Rotate(WithWrapper(newW), WithSalt(newSalt), WithInfo(newInfo)) })
+	viaPayload := nondetBool()
+	verifGo(func() {
+		if viaPayload {
+			// the new material arrives as a rotation payload travelling through the same filter
+			ef.Process(context.Background(), newEvent(&rotPayload{w: newW, salt: newSalt, info: newInfo}))
+		} else {
+			ef.Rotate(WithWrapper(newW), WithSalt(newSalt), WithInfo(newInfo))
+		}
+	})
 	verifJoin()
 	verifInterleave(false)
 	if out != nil {
